@@ -246,7 +246,7 @@ def cases_for(model, rng, tier):
 
 def build_cases(tier, seed):
     rng = random.Random(seed * 7919 + 13)
-    n_models = 110 if tier == "quick" else 900
+    n_models = 90 if tier == "quick" else 800
     cases = []
     for m in corner_models():
         cases += cases_for(m, rng, tier)
@@ -306,6 +306,8 @@ def check_pfba(case):
                 sol = model.optimize()
     except OptimizationError as e:
         exc = e
+    except Exception as e:  # noqa - the code under test raised something else on a legitimate input
+        return {"failures": [("pfba:exception", f"raised {e!r}")], "nontrivial": bool(case["carries"])}
     got_opt = sol is not None and sol.status == "optimal"
     if st2 != "optimal":
         if got_opt:
@@ -436,6 +438,11 @@ def check_moma_room(case):
                         sol = model.optimize()
         except OptimizationError as e:
             exc = e
+        except Exception as e:  # noqa
+            if feasible:
+                k0 = "moma" if method == "moma" else "room"
+                return {"failures": [(f"{k0}:exception", f"raised {e!r}")], "nontrivial": bool(case["carries"])}
+            exc = e
     got_opt = sol is not None and sol.status == "optimal"
     key = "moma" if method == "moma" else ("room-linear" if case["linear"] else "room")
     exact = None
@@ -488,7 +495,11 @@ def check_moma_room(case):
             else:
                 _, exact = room_linear_min(lp, refv, bounds)
                 capped = None
-            if not oracle_lp.close(sol.objective_value, exact):
+            # GLPK accepts reduced costs down to -1e-7; the relaxed rows have costs ~1/(ub - w) ~ 1e-3 per flux unit, so two
+            # vertices whose sums differ by < 1e-7 * (flux span) are both "optimal" for the solver (observed: 2.000025 vs
+            # 2).  Principled slack: dual tolerance x total span of the flux variables.
+            span = sum(min(ub - lb, 2000.0) for lb, ub in bounds.values())
+            if abs(sol.objective_value - float(exact)) > 1e-6 + 1e-7 * span:
                 k = "room-linear:sum"
                 if refv is not None and cap:
                     stc, capped = room_linear_min(lp, refv, bounds, extra=cap)
@@ -498,6 +509,16 @@ def check_moma_room(case):
                     # default reference: the cap c.v <= (pFBA total) cuts the reference itself off iff c.ref > total
                     if ref_cut:
                         k = "room:objective-cap"
+                if refv is None and k == "room-linear:sum":
+                    # the default reference is pfba(model) in this very state (deterministic): is one of its fluxes within
+                    # rounding noise of a bound?  then add_room builds a row with a ~1e-16 coefficient (NOTES_C09.md)
+                    from cobra.flux_analysis import pfba as _pfba
+                    with model:
+                        _apply_ko(model, case["ko"])
+                        pv = U.fluxdict(_pfba(model).fluxes)
+                    noisy = [rid for rid, w in pv.items() for b in bounds[rid] if 0 < abs(w - b) < 1e-9]
+                    if noisy:
+                        k = "room-linear:noise-coefficient"
                 fails.append((k, f"relaxed ROOM objective_value {sol.objective_value!r} != exact minimum {float(exact)!r}"
                                  f" (with the undocumented cap: {None if capped is None else float(capped)})"))
         else:
